@@ -94,26 +94,32 @@ theorem autoPi_stationary (n : Nat) (hn : 1 ≤ n) (lam : Nat → ℝ) (hl : ∀
 inductive AutoOp (α : Type) where
   | setLambda (k : Nat) (v : α)
   | getPij
+  /-- `Pij(i, j)` (no range check: `none` = `vAutocorrel_[i]` does not exist) -/
+  | entry (i j : Nat)
   | getEq
 
 variable {α : Type} [Scalar α]
 
-def AutoTM.stepA (m : AutoTM α) : AutoOp α → AutoTM α × List (List α)
-  | .setLambda k v => (m.setLambda k v, [])
-  | .getPij => m.getPij
-  | .getEq => (m, [m.eq])
+/-- answers: a matrix (`getPij`), one row (`getEquilibriumFrequencies`), one entry, nothing, or the
+out-of-range outcome -/
+def AutoTM.stepA (m : AutoTM α) : AutoOp α → AutoTM α × Option (List (List α))
+  | .setLambda k v => (m.setLambda k v, some [])
+  | .getPij => let r := m.getPij; (r.1, some r.2)
+  | .entry i j => (m, (m.lam[i]?).map (fun li => [[autoEntry m.n li i j]]))
+  | .getEq => (m, some [m.eq])
 
-def AutoTM.runA (m : AutoTM α) : List (AutoOp α) → List (List (List α))
+def AutoTM.runA (m : AutoTM α) : List (AutoOp α) → List (Option (List (List α)))
   | [] => []
   | op :: ops => (m.stepA op).2 :: AutoTM.runA (m.stepA op).1 ops
 
 /-- the reference: everything is recomputed from the current λ's (`eq0` = the equilibrium vector as
 long as no λ was set) -/
-def autoSpecRun (n : Nat) (lam eq0 : List α) : List (AutoOp α) → List (List (List α))
+def autoSpecRun (n : Nat) (lam eq0 : List α) : List (AutoOp α) → List (Option (List (List α)))
   | [] => []
-  | .setLambda k v :: ops => [] :: autoSpecRun n (lam.set k v) (autoEq (lam.set k v)) ops
-  | .getPij :: ops => autoMatrix n lam :: autoSpecRun n lam eq0 ops
-  | .getEq :: ops => [eq0] :: autoSpecRun n lam eq0 ops
+  | .setLambda k v :: ops => some [] :: autoSpecRun n (lam.set k v) (autoEq (lam.set k v)) ops
+  | .getPij :: ops => some (autoMatrix n lam) :: autoSpecRun n lam eq0 ops
+  | .entry i j :: ops => (lam[i]?).map (fun li => [[autoEntry n li i j]]) :: autoSpecRun n lam eq0 ops
+  | .getEq :: ops => some [eq0] :: autoSpecRun n lam eq0 ops
 
 theorem AutoTM.runA_spec (m : AutoTM α) (hinv : m.upToDate = true → m.pij = autoMatrix m.n m.lam)
     (ops : List (AutoOp α)) : m.runA ops = autoSpecRun m.n m.lam m.eq ops := by
@@ -130,8 +136,21 @@ theorem AutoTM.runA_spec (m : AutoTM α) (hinv : m.upToDate = true → m.pij = a
       · simp only [hu, if_true]; rw [ih m hinv, hinv hu]
       · simp only [hu, if_false, Bool.false_eq_true]
         rw [ih _ (fun _ => rfl)]
+    | entry i j =>
+      simp only [AutoTM.runA, AutoTM.stepA, autoSpecRun]
+      rw [ih m hinv]
     | getEq =>
       simp only [AutoTM.runA, AutoTM.stepA, autoSpecRun]
       rw [ih m hinv]
+
+/-- `getPij()` agrees entry-wise with `Pij(i, j)`, whatever the history: entry `(i, j)` of the matrix a
+cache-free object computes is `autoEntry n λ_i i j` -/
+theorem autoMatrix_entry (n : Nat) (lam : List α) (i j : Nat) (hj : j < n) :
+    ((autoMatrix n lam)[i]?).bind (·[j]?) = (lam[i]?).map (fun li => autoEntry n li i j) := by
+  unfold autoMatrix
+  rw [List.getElem?_mapIdx]
+  cases lam[i]? with
+  | none => rfl
+  | some li => simp [hj]
 
 end Bpp.Hmm
